@@ -35,7 +35,7 @@ func (d *DelayOnError) applyDelay(msg *message.Message) {
 	delayedForStr := msg.Metadata.Get(delay.DelayedForKey)
 	delayedFor, err := time.ParseDuration(delayedForStr)
 	if delayedForStr != "" && err == nil {
-		delayedFor *= time.Duration(d.Multiplier)
+		delayedFor = time.Duration(float64(delayedFor) * d.Multiplier)
 		if delayedFor > d.MaxInterval {
 			delayedFor = d.MaxInterval
 		}
